@@ -42,7 +42,7 @@ class C19(Prop):
                 seqs.append(calls + [G.op_end(t)])
             # sequential executions of tests (no interleaving across tests sharing a generic path)
             body = [o for s in seqs for o in s]
-            execs = r.weighted([(1, 3), (2, 1)])
+            execs = r.weighted([(1, 4), (2, 2), (3, 1), (5, 1)])      # -count: the reset of the ordinal must work after EVERY execution
             p1 = body * execs
             replay_env = r.choice(G.ENVS)
             ops += p1 + [{"op": "dumpfs"}, {"op": "newprocess"}]
